@@ -31,6 +31,32 @@ func c01Body(ops []string) func(x *sched.X) {
 				return w.Deliver(ctx, 0, v)
 			},
 		}
+		// truncation scenarios start from a chain whose wallet A holds 6 deep in the history, with the overdrawing
+		// spend A->B 10 as the (not yet validated) tip: whoever validates that tip - before, during or after the
+		// truncation that checkpoints A's 6 - must count those 6 exactly once
+		for _, op := range ops {
+			if op == "truncate" {
+				must := func(e error) {
+					if e != nil {
+						panic("c01 sched setup: " + e.Error())
+					}
+				}
+				must(txs["t1"]())
+				for i := 1; i <= 3; i++ {
+					_, e := w.Propose(ctx, 0, w.Contract(fmt.Sprintf("c%d", i), R, B, []byte("filler")))
+					must(e)
+				}
+				_, e := w.Propose(ctx, 0, w.Tx("over", A, B, 10, 0))
+				must(e)
+				break
+			}
+		}
+		txs["truncate"] = func() error { return nd[0].Book.VerifTruncate(ctx) }
+		txs["filler"] = func() error {
+			_, e := w.Propose(ctx, 0, w.Contract("c9", R, B, []byte("filler")))
+			return e
+		}
+		txs["spend"] = func() error { _, e := w.Propose(ctx, 0, w.Tx("t4", R, B, 1, 0)); return e }
 		vsched.Quiet(false)
 		res := make([]string, len(ops))
 		var hs []*vsched.Handle
@@ -81,6 +107,10 @@ func c01Scenarios() map[string]*sched.Scenario {
 	add("t1||t2||t3", "t1", "t2", "t3")
 	add("t1||mx", "t1", "mx")
 	add("t1||t2||mx", "t1", "t2", "mx")
+	// the long operation (truncate) is created last: it runs first by default and every deviation injects the
+	// proposal at another point of it
+	add("filler||truncate", "filler", "truncate")
+	add("spend||filler||truncate", "spend", "filler", "truncate")
 	return m
 }
 
